@@ -411,8 +411,9 @@ func (s *Sim) callAccessDropped(c *Client, r *CReq) bool {
 	defer s.mu.Unlock()
 	accessAnswered := false
 	calls := 0
+	_, query := splitRID(c.expandCID(r.RID))
 	for _, q := range s.tr.reqs {
-		if q.CIdx != c.CIdx || q.Name != name {
+		if q.CIdx != c.CIdx || q.Name != name || q.Query != query {
 			continue
 		}
 		if q.Type == "access" && q.Delivered && q.Seq > r.Seq {
